@@ -62,3 +62,16 @@ Print Assumptions C11_single.
 Print Assumptions C11_progress.
 Print Assumptions C11_commands_msg.
 Print Assumptions C11_commands_ctcp.
+
+(* generated-code tie *)
+(* Gen/GoFuncs.v holds the Gallina TRANSLATION of the Go bodies of splitMessage and
+   indexFragment, regenerated from the source on every run (translator/go2coq.go); it is
+   equal to the model the theorems above are about — for every input, panics included.
+   A change of the Go code that changes behaviour breaks these (Proofs/GenEqSplit.v). *)
+From Verif Require Import GoFuncs GenEqSplit.
+Theorem gen_C11_splitMessage : forall msg n, go_client_splitMessage msg n = split_message msg n.
+Proof. exact go_splitMessage_eq. Qed.
+Theorem gen_C11_indexFragment : forall s, go_client_indexFragment s = Ok (index_fragment s).
+Proof. exact go_indexFragment_eq. Qed.
+Print Assumptions gen_C11_splitMessage.
+Print Assumptions gen_C11_indexFragment.
